@@ -24,7 +24,7 @@ def canon_dump(dump, keep_refs=False, keep_counters=False):
         elif t == 'req':
             reqs.append(d)
         elif t == 'xq':
-            xqs[d['id']] = (d.get('missing', 0), d.get('modes'), d.get('sent'), d.get('ref'), d.get('more'), d.get('ok'), d.get('pw'))
+            xqs[d['id']] = (d.get('missing', 0), d.get('modes'), d.get('sent'), d.get('ref'), d.get('more'), d.get('ok'), d.get('pw'), d.get('refilled', 0))
         elif t == 'svc':
             if d.get('empty'):
                 svcs.append((d['slot'], None))
